@@ -38,7 +38,9 @@ func init() {
 		Level: "exploration",
 		Rule: "per case one input fed to readers (FASTA, FASTQ, BED3/4/5/6/12, GFF): (a) random bytes enriched with newline/tab/#/>/@/+; (b) valid files from the C01/C02 generators under 1..3 mutations " +
 			"(delete/duplicate/empty/swap a column, numeric boundary tokens, strand/frame replacement, drop/duplicate a line, splice, byte flips, random truncation); (c) a catalogue of structurally invalid lines that must produce an error, embedded between valid lines; " +
-			"(d) truncation of small valid files at every byte offset; one input in six is delivered by a source that fails with a non-EOF error at a random offset. Oracle: no panic (recover + child exit status), every call returns a record or an error, first error/EOF within lines+1 calls, further calls still safe, hang = source at EOF and call not returning. " +
+			"(d) truncation of small valid files at every byte offset; one input in six is delivered by a source that fails with a non-EOF error at a random offset. Oracle: no panic (recover + child exit status), every call returns a record or an error, first error/EOF within lines+1 calls, further calls still safe (one reader in eight, and every catalogue reader, is called on past its errors until io.EOF, as a caller skipping bad records does: same demands on every call, none on where EOF comes), hang = call not returning while its source is at EOF or is not asked for anything. " +
+			"Also: numeric tokens include large integers that parse (MaxInt64, 2^31, 2^32, 2^40, 255/256, 127/128) and lists of them in the BED12 colour/block columns; one random input in 80 has lines of several read buffers (4000..24000 bytes, a newline every ~3000), the catalogue has FASTQ length mismatches with 4090..70000 letters; " +
+			"one case in 1000 runs 4..8 goroutines with 20..40 independent readers each (mostly of one package, the list gone through 8 times) at the same time, every run compared with the same run alone. " +
 			"Non-trivial = at least one record or non-EOF error; distinct = (reader, outcome sequence, input hash)",
 		Batches: func(t string) int {
 			if t == "thorough" {
@@ -51,12 +53,15 @@ func init() {
 		Case:        c03Case,
 		MinDistinct: func(t string) int { return 10000 },
 		Floors: func(string) map[string]int64 {
-			return map[string]int64{"reader_runs": 50000, "read_calls": 200000, "records_returned": 20000, "errors_returned": 20000, "catalogue_lines_checked": 2000, "truncation_points": 20000, "random_byte_inputs": 3000, "mutated_inputs": 5000}
+			return map[string]int64{"reader_runs": 50000, "read_calls": 200000, "records_returned": 20000, "errors_returned": 20000, "catalogue_lines_checked": 2000, "truncation_points": 20000, "random_byte_inputs": 3000, "mutated_inputs": 5000,
+				"long_line_random_inputs": 300, "catalogue_lines_longer_than_the_read_buffer": 80, "large_parsable_integers_placed": 1000, "runs_continued_past_their_errors": 8000, "parallel_reader_sets": 30, "parallel_reader_runs": 40000}
 		},
 		ChildTimeout: func(string) time.Duration { return 15 * time.Minute },
 		Assumptions: []string{
 			"lines = number of newline bytes, plus one if the input does not end in a newline",
 			"a hang is decided logically: the instrumented source has delivered io.EOF and the call has still not returned after 20 s (wall clock only as the trigger to look)",
+			"the source never blocks, so a call that for 20 s neither returns nor asks its source for anything is computing without end; it is called a hang only if the process also used 10 s of processor time meanwhile (a process merely kept from running uses none)",
+			"readers that share no source, template or input may be used from different goroutines at once and then behave as they do alone (as for the writers in C01)",
 			"catalogue lines are those the statement lists: missing mandatory columns, non-numeric coordinates, GFF start of zero, bad strand, incomplete metadata lines, sequence/quality length mismatch",
 		},
 	})
@@ -66,14 +71,23 @@ func c03Setup(r *obs.Run) {
 	go func() {
 		last := int64(-1)
 		stuck := 0
+		var reads, quiet int64 // source reads seen at the last look; consecutive looks without a new one
+		var cpu0 time.Duration // processor time used by this process when the source was last seen being read
 		for {
 			time.Sleep(time.Second)
 			now := atomic.LoadInt64(&c03Calls)
+			nowReads := atomic.LoadInt64(&c03SrcReads)
 			if now != last {
 				last, stuck = now, 0
+				reads, quiet, cpu0 = nowReads, 0, c03CPU()
 				continue
 			}
 			stuck++
+			if nowReads != reads {
+				reads, quiet, cpu0 = nowReads, 0, c03CPU()
+			} else {
+				quiet++
+			}
 			if stuck < 20 {
 				continue
 			}
@@ -81,6 +95,13 @@ func c03Setup(r *obs.Run) {
 			cur, _ := c03Current.Load().(string)
 			if src != nil && src.eofSeen() {
 				r.Violate("hang", "reader call has not returned although its source delivered io.EOF", map[string]interface{}{"input": cur})
+				r.FinishEarly(0)
+			}
+			// the source never blocks, so a call that neither returns nor asks its source for anything waits for nothing:
+			// it is computing (the processor time it used meanwhile shows that the process was not merely kept from running)
+			if used := c03CPU() - cpu0; quiet >= 20 && used >= 10*time.Second {
+				r.Violate("hang", fmt.Sprintf("reader call has not returned and has not asked its source for anything for %d s, during which the process used %.0f s of processor time", quiet, used.Seconds()),
+					map[string]interface{}{"input": cur, "seconds_without_a_source_read": quiet, "processor_seconds_used": used.Seconds(), "source_reads_so_far": nowReads})
 				r.FinishEarly(0)
 			}
 			if stuck > 120 {
@@ -117,63 +138,131 @@ type c03Outcome struct {
 	seq      string // R record, E error, F EOF, per call
 	nonEOF   int
 	records  int
+	calls    int
+	beyond   int // calls made after the second call following the first error (readers whose caller skips bad records)
 	violated bool
 }
 
-// c03Drive runs one reader over data.
+// c03Drive runs one reader over data: it draws the source and the reader settings, runs the calls (c03Core) and
+// books what was seen.
 func c03Drive(r *obs.Run, kind string, data []byte, origin string) c03Outcome {
-	var out c03Outcome
 	src := newSrc(r.Rng, data)
 	if len(data) > 0 && !strings.HasPrefix(origin, "catalogue") && r.Rng.Intn(6) == 0 { // the underlying reader fails part-way instead of reaching its end
 		src.failing, src.failAt = true, r.Rng.Intn(len(data)+1)
 		origin += fmt.Sprintf(" (source fails after %d bytes)", src.failAt)
 		r.Count("failing_sources", 1)
 	}
+	p := c03DrawPick(r.Rng, kind, len(data) < 1<<20)
+	if strings.HasPrefix(origin, "catalogue") { // the bad lines may stand behind an earlier error: all of the input is read
+		p.past = true
+	}
+	if p.noTime {
+		r.Count("gff_readers_without_time_format", 1)
+	}
+	out, f := c03Core(kind, data, origin, src, p)
+	c03Book(r, out, f)
+	return out
+}
+
+// c03Book counts one finished reader run and records its finding, if any (main goroutine only).
+func c03Book(r *obs.Run, out c03Outcome, f *c03Finding) {
+	r.Count("reader_runs", 1)
+	r.Count("read_calls", int64(out.calls))
+	r.Count("errors_returned", int64(out.nonEOF))
+	r.Count("records_returned", int64(out.records))
+	if out.beyond > 0 {
+		r.Count("runs_continued_past_their_errors", 1)
+		r.Count("calls_beyond_the_second_after_the_first_error", int64(out.beyond))
+	}
+	if f != nil {
+		r.Violate(f.class, f.brief, f.witness)
+	}
+}
+
+// c03Pick is what is drawn for one reader besides its source.
+type c03Pick struct {
+	tmpl   int  // fasta: 1 = quality-carrying template; fastq: index of the quality encoding, 8 = plain template
+	noTime bool // gff: date parsing switched off
+	past   bool // the caller skips bad records: it goes on calling after the errors until io.EOF (or the call bound)
+}
+
+var c03Encodings = []alphabet.Encoding{alphabet.Sanger, alphabet.Sanger, alphabet.Solexa, alphabet.Illumina1_3, alphabet.Illumina1_5, alphabet.Illumina1_8, alphabet.Illumina1_9, alphabet.None}
+
+func c03DrawPick(rng *rand.Rand, kind string, mayGoPast bool) c03Pick {
+	var p c03Pick
+	switch kind {
+	case "fasta":
+		if rng.Intn(3) == 0 {
+			p.tmpl = 1
+		}
+	case "fastq":
+		// every decoder sees arbitrary bytes, and so does the plain template
+		p.tmpl = rng.Intn(len(c03Encodings))
+		if rng.Intn(6) == 0 {
+			p.tmpl = len(c03Encodings)
+		}
+	case "gff":
+		p.noTime = rng.Intn(3) == 0 // date parsing switched off: an incomplete ##date line is still incomplete
+	}
+	p.past = mayGoPast && rng.Intn(8) == 0
+	return p
+}
+
+// c03Finding is a violation seen by c03Core, to be recorded by the main goroutine.
+type c03Finding struct {
+	class, brief string
+	witness      map[string]interface{}
+}
+
+// c03Core makes the calls of one reader run. It touches nothing of the run context (only the watchdog's atomic
+// markers), so that several of them can run in different goroutines.
+func c03Core(kind string, data []byte, origin string, src *chunkReader, p c03Pick) (out c03Outcome, finding *c03Finding) {
 	c03Src.Store(src)
+	in := c03Source{src}
 	var read func() (interface{}, error)
 	switch kind {
 	case "fasta":
 		var tmpl seqio.SequenceAppender = linear.NewSeq("", nil, alphabet.DNA)
-		if r.Rng.Intn(3) == 0 {
+		if p.tmpl == 1 {
 			tmpl = linear.NewQSeq("", nil, alphabet.Protein, alphabet.Sanger)
 		}
-		rd := fasta.NewReader(src, tmpl)
+		rd := fasta.NewReader(in, tmpl)
 		read = func() (interface{}, error) { s, err := rd.Read(); return s, err }
 	case "fastq":
-		// every decoder sees arbitrary bytes, and so does the plain template
-		var tmpl seqio.SequenceAppender = linear.NewQSeq("", nil, alphabet.DNA, []alphabet.Encoding{alphabet.Sanger, alphabet.Sanger, alphabet.Solexa, alphabet.Illumina1_3, alphabet.Illumina1_5, alphabet.Illumina1_8, alphabet.Illumina1_9, alphabet.None}[r.Rng.Intn(8)])
-		if r.Rng.Intn(6) == 0 {
+		var tmpl seqio.SequenceAppender
+		if p.tmpl < len(c03Encodings) {
+			tmpl = linear.NewQSeq("", nil, alphabet.DNA, c03Encodings[p.tmpl])
+		} else {
 			tmpl = linear.NewSeq("", nil, alphabet.DNA)
 		}
-		rd := fastq.NewReader(src, tmpl)
+		rd := fastq.NewReader(in, tmpl)
 		read = func() (interface{}, error) { s, err := rd.Read(); return s, err }
 	case "gff":
-		rd := gff.NewReader(src)
-		if r.Rng.Intn(3) == 0 { // date parsing switched off: an incomplete ##date line is still incomplete
+		rd := gff.NewReader(in)
+		if p.noTime {
 			rd.TimeFormat = ""
-			r.Count("gff_readers_without_time_format", 1)
 		}
 		read = func() (interface{}, error) { f, err := rd.Read(); return f, err }
 	default:
 		n := map[string]int{"bed3": 3, "bed4": 4, "bed5": 5, "bed6": 6, "bed12": 12}[kind]
-		rd, err := bed.NewReader(src, n)
+		rd, err := bed.NewReader(in, n)
 		if err != nil {
-			r.Violate("constructor", "bed.NewReader: "+err.Error(), nil)
-			return out
+			return out, &c03Finding{"constructor", "bed.NewReader: " + err.Error(), nil}
 		}
 		read = func() (interface{}, error) { f, err := rd.Read(); return f, err }
 	}
-	witness := func(what string) map[string]interface{} {
+	var sb strings.Builder
+	fail := func(mark, class, brief, what string) (c03Outcome, *c03Finding) {
 		d := data
 		if len(d) > 3000 {
 			d = d[:3000]
 		}
-		return map[string]interface{}{"reader": kind, "origin": origin, "input": string(d), "input_hex_head": fmt.Sprintf("%x", d[:minInt(len(d), 64)]), "input_len": len(data), "calls": out.seq, "what": what}
+		out.seq = sb.String() + mark
+		out.violated = true
+		return out, &c03Finding{class, brief, map[string]interface{}{"reader": kind, "origin": origin, "input": string(d), "input_hex_head": fmt.Sprintf("%x", d[:minInt(len(d), 64)]), "input_len": len(data), "calls": out.seq, "what": what}}
 	}
 	bound := countLines(data) + 1
 	first := 0
-	r.Count("reader_runs", 1)
-	var sb strings.Builder
 	for call := 1; call <= bound+2; call++ {
 		var rec interface{}
 		var err error
@@ -183,45 +272,39 @@ func c03Drive(r *obs.Run, kind string, data []byte, origin string) c03Outcome {
 			return nil
 		}()
 		atomic.AddInt64(&c03Calls, 1)
-		r.Count("read_calls", 1)
+		out.calls++
 		if panicked != nil {
-			out.seq = sb.String() + "P"
-			out.violated = true
-			r.Violate("panic", fmt.Sprintf("%s reader panicked on call %d: %v", kind, call, panicked), witness(fmt.Sprint(panicked)))
-			return out
+			return fail("P", "panic", fmt.Sprintf("%s reader panicked on call %d: %v", kind, call, panicked), fmt.Sprint(panicked))
 		}
 		switch {
 		case err == nil && isNilRec(rec):
-			out.seq = sb.String() + "N"
-			out.violated = true
-			r.Violate("nil-nil", fmt.Sprintf("%s reader returned neither a record nor an error on call %d", kind, call), witness("nil record and nil error"))
-			return out
+			return fail("N", "nil-nil", fmt.Sprintf("%s reader returned neither a record nor an error on call %d", kind, call), "nil record and nil error")
 		case err == io.EOF:
 			sb.WriteByte('F')
 		case err != nil:
 			sb.WriteByte('E')
 			out.nonEOF++
-			r.Count("errors_returned", 1)
 		default:
 			sb.WriteByte('R')
 			out.records++
-			r.Count("records_returned", 1)
 		}
 		if err != nil && first == 0 {
 			first = call
 		}
 		if first == 0 && call >= bound {
-			out.seq = sb.String()
-			out.violated = true
-			r.Violate("no-eof", fmt.Sprintf("%s reader returned %d records without io.EOF or an error for an input of %d lines", kind, call, bound-1), witness("no EOF within lines+1 calls"))
-			return out
+			return fail("", "no-eof", fmt.Sprintf("%s reader returned %d records without io.EOF or an error for an input of %d lines", kind, call, bound-1), "no EOF within lines+1 calls")
 		}
 		if first != 0 && call >= first+2 {
-			break
+			// nothing is demanded of the calls after the first error beyond what is demanded of every call (no panic, a
+			// record or an error each time, no hang): a reader is free to repeat its error
+			if !p.past || err == io.EOF {
+				break
+			}
+			out.beyond++
 		}
 	}
 	out.seq = sb.String()
-	return out
+	return out, nil
 }
 
 // ---- valid file generators (text) ----
@@ -273,7 +356,24 @@ func c03ValidFile(rng *rand.Rand, kind string) []byte {
 	return append([]byte(nil), cw.buf.Bytes()...)
 }
 
-var c03NumTokens = []string{"0", "-0", "00", "1e3", "0x10", "9223372036854775808", "-9223372036854775809", "-", "", "+1", "1.5", " 1", "0b1", "1_0", "١", "NaN", "\x00"}
+var c03NumTokens = []string{"0", "-0", "00", "1e3", "0x10", "9223372036854775808", "-9223372036854775809", "-", "", "+1", "1.5", " 1", "0b1", "1_0", "١", "NaN", "\x00",
+	// integers that parse and are large, or sit at the edge of a narrower type: what lies behind the parse sees them
+	"9223372036854775807", "-9223372036854775808", "2147483647", "2147483648", "4294967296", "1099511627776", "255", "256", "127", "128", "-129"}
+
+const c03FirstLargeToken = 17
+
+// c03Placed counts what c03Mutate placed (main goroutine only): large integers that parse; boundary tokens and lists
+// of them in columns 7..12 of BED12 lines.
+var c03Placed [2]int64
+
+// c03NumList is a ','-separated list of 1..3 boundary tokens (the BED colour and block columns hold lists).
+func c03NumList(rng *rand.Rand) string {
+	t := make([]string, 1+rng.Intn(3))
+	for i := range t {
+		t[i] = c03NumTokens[rng.Intn(len(c03NumTokens))]
+	}
+	return strings.Join(t, ",")
+}
 
 func c03Mutate(rng *rand.Rand, data []byte) []byte {
 	lines := strings.Split(string(data), "\n")
@@ -349,13 +449,29 @@ func c03Mutate(rng *rand.Rand, data []byte) []byte {
 		lines[i] = strings.Join(f, "\t")
 	case 5, 6: // numeric boundary token in a (probably numeric) field
 		i := pickLine()
-		f := strings.Split(lines[i], "\t")
+		sep := "\t"
+		if strings.HasPrefix(lines[i], "##") && strings.Contains(lines[i], " ") { // the numbers of a metadata line stand between blanks
+			sep = " "
+		}
+		f := strings.Split(lines[i], sep)
 		k := rng.Intn(len(f))
 		if len(f) > 4 && rng.Intn(2) == 0 {
 			k = 1 + rng.Intn(4)
 		}
-		f[k] = c03NumTokens[rng.Intn(len(c03NumTokens))]
-		lines[i] = strings.Join(f, "\t")
+		t := rng.Intn(len(c03NumTokens))
+		f[k] = c03NumTokens[t]
+		if t >= c03FirstLargeToken {
+			c03Placed[0]++
+		}
+		if len(f) >= 12 && rng.Intn(2) == 0 { // thick start/end, colour, block count, block sizes, block starts of a BED12 line
+			k = 6 + rng.Intn(6)
+			f[k] = c03NumTokens[rng.Intn(len(c03NumTokens))]
+			if k == 8 || k >= 10 {
+				f[k] = c03NumList(rng)
+			}
+			c03Placed[1]++
+		}
+		lines[i] = strings.Join(f, sep)
 	case 7: // strand/frame style replacement
 		i := pickLine()
 		f := strings.Split(lines[i], "\t")
@@ -437,7 +553,7 @@ var c03TwoErrors = map[string]bool{"fastq mismatching record followed by an empt
 var c03FirstOnly = map[string]bool{"fasta sequence line before any header": true}
 
 // entries that are an error only as the last thing in the input (with or without a final newline)
-var c03LastOnly = map[string]bool{"fastq record cut off before its quality line": true}
+var c03LastOnly = map[string]bool{"fastq record cut off before its quality line": true, "fastq length mismatch across a read-buffer boundary, last in the input": true}
 
 func gffLine(rng *rand.Rand, mod func(f []string) []string) string {
 	f := []string{"seq" + fmt.Sprint(rng.Intn(9)), "src", "feat", fmt.Sprint(1 + rng.Intn(100)), fmt.Sprint(200 + rng.Intn(100)), ".", "+", "."}
@@ -610,6 +726,9 @@ var c03Catalogue = func() []c03Cat {
 	cat = append(cat, c03Cat{"fasta", "fasta sequence line before any header", func(rng *rand.Rand) string {
 		return "acgtacgt"
 	}})
+	// lines that come to the reader in pieces (longer than its 4096-byte buffer)
+	cat = append(cat, c03Cat{"fastq", "fastq length mismatch across a read-buffer boundary", c03LongMismatch})
+	cat = append(cat, c03Cat{"fastq", "fastq length mismatch across a read-buffer boundary, last in the input", c03LongMismatch})
 	return cat
 }()
 
@@ -619,6 +738,11 @@ func c03Case(r *obs.Run, i int) {
 	note := func(kind string, data []byte, o c03Outcome) {
 		r.Note(fmt.Sprintf("%s/%s/%x", kind, o.seq, hashBytes(data)), o.records > 0 || o.nonEOF > 0)
 	}
+	placed := c03Placed
+	defer func() {
+		r.Count("large_parsable_integers_placed", c03Placed[0]-placed[0])
+		r.Count("bed12_thick_colour_block_columns_replaced", c03Placed[1]-placed[1])
+	}()
 	switch {
 	case i == 5 && (r.Batch < 2 || r.Thorough()): // a very tall input: one short line repeated a million and a half times
 		lines := []string{"##Type DNA", "", "# c", "##gff-version 2", "##source-version x", "##date 2020-1-01", ">", "@", "+", "x", "##type RNA r"}
@@ -635,8 +759,17 @@ func c03Case(r *obs.Run, i int) {
 			o := c03Drive(r, k, data, fmt.Sprintf("%d lines %q", n, line))
 			r.Note(fmt.Sprintf("tall/%s/%s/%s", k, line, o.seq), true)
 		}
+	case i%1000 == 77: // independent readers used from several goroutines at once
+		c03ParallelReaders(r)
 	case mode == 0: // random bytes to every reader
 		data := c03RandomBytes(rng)
+		if i%80 == 0 { // few, very long lines
+			data = c03LongRandomBytes(rng)
+			if rng.Intn(3) == 0 {
+				data = c03FramedLong(rng)
+			}
+			r.Count("long_line_random_inputs", 1)
+		}
 		c03Current.Store(fmt.Sprintf("random bytes %q", truncBytes(data, 200)))
 		r.Crumb(fmt.Sprintf("random bytes %x", truncBytes(data, 2000)))
 		r.Count("random_byte_inputs", 1)
@@ -651,7 +784,9 @@ func c03Case(r *obs.Run, i int) {
 			pre = 0
 		}
 		valid := func() string {
-			s := strings.TrimRight(string(c03ValidFile(rng, c.kind)), "\n")
+			// only the final terminator goes (the parts are joined by one): a FASTQ file ending in a record without letters ends
+			// in an empty quality line, which belongs to that record
+			s := strings.TrimSuffix(string(c03ValidFile(rng, c.kind)), "\n")
 			return s
 		}
 		for k := 0; k < pre; k++ {
@@ -674,12 +809,15 @@ func c03Case(r *obs.Run, i int) {
 		r.Crumb(fmt.Sprintf("catalogue %s: %q", c.name, truncBytes(data, 2000)))
 		o := c03Drive(r, c.kind, data, "catalogue: "+c.name)
 		r.Count("catalogue_lines_checked", 1)
+		if len(bad) > 4096 {
+			r.Count("catalogue_lines_longer_than_the_read_buffer", 1)
+		}
 		if !o.violated && c03TwoErrors[c.name] && o.nonEOF == 1 {
-			r.Violate("invalid-line-accepted", fmt.Sprintf("%s reader reported only the first of two bad records: %s (%q), calls %s", c.kind, c.name, bad, o.seq),
+			r.Violate("invalid-line-accepted", fmt.Sprintf("%s reader reported only the first of two bad records: %s (%q), calls %s", c.kind, c.name, c03Short(bad), o.seq),
 				map[string]interface{}{"reader": c.kind, "catalogue_entry": c.name, "bad_line": bad, "input": string(data), "calls": o.seq})
 		}
 		if !o.violated && o.nonEOF == 0 {
-			r.Violate("invalid-line-accepted", fmt.Sprintf("%s reader reported no error for: %s (%q)", c.kind, c.name, bad),
+			r.Violate("invalid-line-accepted", fmt.Sprintf("%s reader reported no error for: %s (%q)", c.kind, c.name, c03Short(bad)),
 				map[string]interface{}{"reader": c.kind, "catalogue_entry": c.name, "bad_line": bad, "input": string(data), "calls": o.seq})
 		}
 		note(c.kind, data, o)
